@@ -35,6 +35,7 @@ type Profile struct {
 	StrCompare     bool
 	GenericFns     bool // unannotated generic helper functions
 	LetRhsInline   bool // the right-hand side of a let is always a one-line expression
+	RecGroups      bool // type A = {.. B ..} and B = ... groups with a forward reference
 	NoIf           bool // no if expressions (C02: not in the list of constructs with promised inference)
 	NoMatch        bool
 	NoFieldAcc     bool
@@ -46,7 +47,7 @@ type Profile struct {
 
 var ProfileC01 = Profile{Name: "c01", MulDiv: true, Lambdas: true, StrMatch: true, Interp: true, RawStr: true, Tuple3: true, InnerFun: true, IfOnly: true,
 	UnionNoDef: true, FieldPerm: true, Partial: true, Pipes: true, HigherOrder: true, CompositeEq: true, UsField: true, SliceLib: true, StringsLib: true,
-	TopVars: true, Shadow: true, LowerFields: true, Recursion: true, StrCompare: true, GenericFns: true, MinFuncs: 3, MaxFuncs: 7, MaxDepth: 4}
+	TopVars: true, Shadow: true, LowerFields: true, Recursion: true, StrCompare: true, GenericFns: true, RecGroups: true, MinFuncs: 3, MaxFuncs: 7, MaxDepth: 4}
 
 var ProfileTiny = Profile{Name: "tinyfo", Partial: true, Pipes: true, SliceLib: true, StringsLib: true, HigherOrder: true, CompositeEq: true, Shadow: true, FieldPerm: true, LetRhsInline: true, IfOnly: true, UnionNoDef: true, MinFuncs: 2, MaxFuncs: 5, MaxDepth: 3}
 
@@ -202,6 +203,19 @@ func (g *Gen) genTypes() {
 		}
 		g.recs = append(g.recs, rd)
 		g.add(rd)
+	}
+	if g.P.RecGroups && g.R.Chance(0.5) {
+		// a group whose first record refers forward to the second (and, sometimes, a union
+		// of the group refers back to the first)
+		a := &RecordDef{Name: "Ga", Fields: []Field{{"GaName", TString}, {"GaBoss", TRec("Gb")}}}
+		b := &RecordDef{Name: "Gb", Fields: []Field{{"GbAge", TInt}, {"GbTag", TString}}}
+		if g.R.Chance(0.4) {
+			a.Fields = append(a.Fields, Field{"GaNums", TSlice(TInt)})
+		}
+		grp := &RecGroup{Defs: []Decl{a, b}}
+		g.recs = append(g.recs, b, a)
+		g.add(grp)
+		g.feat("type-and-group")
 	}
 	nu := 1 + g.R.Intn(2)
 	for i := 0; i < nu; i++ {
